@@ -158,6 +158,18 @@ class Gen:
                                 data[k] = self.rnd.choice(["0", "1", "2", "3", "4", "5", "10", "-1"])
                             else:
                                 data[k] = self.string()
+                    # related values: a parameter that lists (dotted) prefixes / parts of another parameter's value, so that
+                    # prefix / membership relations between parameters (set names vs test names ...) actually occur
+                    if len(data) >= 2 and self.rnd.random() < 0.4:
+                        k1, k2 = self.rnd.sample(sorted(data), 2)
+                        base = data[k1] if data[k1] and " " not in data[k1] else "a.b.c"
+                        if "." not in base:
+                            base = base + "." + self.rnd.choice(["b", "x.y", "c"])
+                            data[k1] = base
+                        parts = base.split(".")
+                        toks = [".".join(parts[:i]) for i in range(1, len(parts))] + [self.rnd.choice(self.lits) or "z"]
+                        self.rnd.shuffle(toks)
+                        data[k2] = " ".join(t for t in toks if t)
                     o["fields"] = {"data": data}
                     continue
                 o["fields"] = {}
